@@ -648,50 +648,56 @@ def classify_predicate(v):
     return kinds.pop() if len(kinds) == 1 else 'other'
 
 
-def logical_shape(v):
-    """How a predicate combines its ordering comparisons, each read as 'left is within / below right' (<=, <) or its
-    negation (>, >=): ('all', n) when it holds exactly if all n of them hold, ('any', n) when it fails exactly if all n
-    fail, ('not-all', n) / ('not-any', n) for their negations, else ('other', n).  Lets a rule tell a `everything agreed` guard from a `something agreed` guard by what they
-    compute, not by their names."""
+def logical_shape(v, leaf=None):
+    """How a predicate combines its comparisons.  Each comparison leaf is read as a boolean variable or its negation -
+    by default an ordering comparison is 'left is within / below right' (<=, <) or the negation of that (>, >=); `leaf(e)`
+    may give another reading and returns (variable key, positive?) or raises ValueError for a leaf it cannot read.
+    -> ('all', n) when the predicate holds exactly if all n variables hold, ('any', n) when it fails exactly if all n fail,
+    ('not-all', n) / ('not-any', n) for their negations, else ('other', n).  Lets a rule tell an `everything agreed` guard
+    from a `something agreed` guard by what they compute, not by their names."""
     import itertools
-    leaves = []
+
+    def default_leaf(e):
+        if e[1] not in ('<', '<=', '>', '>='):
+            raise ValueError
+        return id(e), e[1] in ('<', '<=')
+    leaf = leaf or default_leaf
+    keys = []
 
     def ev(e, env):
         if isinstance(e, Unk):
             return ev(e.expr, env)
+        if isinstance(e, bool):
+            return e
         if isinstance(e, tuple) and e:
             if e[0] == 'cmp':
-                if e[1] not in ('<', '<=', '>', '>='):
-                    raise ValueError
-                key = id(e)
-                if key not in env:
-                    raise KeyError(key)
-                return env[key] if e[1] in ('<', '<=') else not env[key]
+                key, positive = leaf(e)
+                if env is None:
+                    if key not in keys:
+                        keys.append(key)
+                    return True
+                return env[key] if positive else not env[key]
             if e[0] == 'not' and len(e) == 2:
                 return not ev(e[1], env)
-            if e[0] == 'or':
-                return any(ev(x, env) for x in e[1:])
-            if e[0] == 'and':
-                return all(ev(x, env) for x in e[1:])
+            if e[0] in ('or', 'any'):
+                return any([ev(x, env) for x in _operands(e[1:])])
+            if e[0] in ('and', 'all'):
+                return all([ev(x, env) for x in _operands(e[1:])])
         raise ValueError
 
-    def collect(e):
-        if isinstance(e, Unk):
-            collect(e.expr)
-        elif isinstance(e, tuple) and e:
-            if e[0] == 'cmp':
-                leaves.append(id(e))
-            else:
-                for x in e[1:]:
-                    collect(x)
-    collect(v)
-    n = len(leaves)
-    if not 2 <= n <= 6:
-        return ('other', n)
+    def _operands(xs):
+        out = []
+        for x in xs:
+            out.extend(x if isinstance(x, list) else [x])
+        return out
     try:
-        table = {bits: ev(v, dict(zip(leaves, bits))) for bits in itertools.product((False, True), repeat=n)}
+        ev(v, None)                 # collects the variables (every operand is visited: no short circuit above)
+        n = len(keys)
+        if not 2 <= n <= 6:
+            return ('other', n)
+        table = {bits: ev(v, dict(zip(keys, bits))) for bits in itertools.product((False, True), repeat=n)}
     except (ValueError, KeyError):
-        return ('other', n)
+        return ('other', len(keys))
     if all(val == all(bits) for bits, val in table.items()):
         return ('all', n)
     if all(val == any(bits) for bits, val in table.items()):
